@@ -8,8 +8,8 @@ for d in seeded/*/; do
   n=$(basename $d)
   if grep -q '"status": "neutralised"' $d/meta.json; then echo "$n neutralised (skipped)"; continue; fi
   git -C $S checkout -q -- . ; git -C $S reset -q --hard
-  PYTHONPATH=$S /venv/bin/python $d/demo.py >/dev/null 2>&1; w0=$?
-  if ! git -C $S apply $d/patch.diff 2>/dev/null; then echo "$n NOAPPLY"; bad=1; continue; fi
+  PYTHONPATH=$S /venv/bin/python $PWD/$d/demo.py >/dev/null 2>&1; w0=$?
+  if ! git -C $S apply $PWD/$d/patch.diff 2>/dev/null; then echo "$n NOAPPLY"; bad=1; continue; fi
   (cd $S && PYTHONPATH=$S timeout 600 /venv/bin/python $OLDPWD/$d/demo.py >/dev/null 2>&1); w1=$?
   b=$(FORMULAIC_SRC=$S ./selftest/baseline.py 2>/dev/null | head -1)
   ok="OK"; [ $w0 -ne 0 ] && ok="BAD(demo fails without patch)"; [ $w1 -eq 0 ] && ok="BAD(demo passes with patch)"; echo "$b" | grep -q "passing_now=463" || ok="BAD(suite)"
